@@ -625,10 +625,6 @@ rp_setup(struct rp_h *h, int serial, int mem16, size_t blocksize)
     else
         h->alloc = (BlockAllocator)MAKE_GENERIC_BLOCKALLOC(h, rp_alloc_cb, rp_free_cb, blocksize);
     regp_init(&h->p);
-    if (mem16)
-        regp_use_memory16(&h->p, rp_r16, rp_w16);
-    else
-        regp_use_memory8(&h->p, rp_r8, rp_w8);
     Source src;
     Sink snk;
     if (h->winsize) {
@@ -641,8 +637,23 @@ rp_setup(struct rp_h *h, int serial, int mem16, size_t blocksize)
         octet_sink_init(&snk, rp_sink_octet, h);
     else
         chunk_sink_init(&snk, rp_sink_chunk, h);
-    regp_use_channel(&h->p, serial ? RP_EP_SERIAL : RP_EP_TCP, src, snk);
-    regp_use_allocator(&h->p, &h->alloc);
+    /* memory, channel and allocator are independent settings: they are made in each of the six possible orders */
+    {
+        static const unsigned char order[6][3] = { { 0, 1, 2 }, { 0, 2, 1 }, { 1, 0, 2 }, { 1, 2, 0 }, { 2, 0, 1 }, { 2, 1, 0 } };
+        const unsigned char *o = order[(rp_setup_toggle + vh_unit_salt / 16) % 6];
+        for (int k = 0; k < 3; k++) {
+            if (o[k] == 0) {
+                if (mem16)
+                    regp_use_memory16(&h->p, rp_r16, rp_w16);
+                else
+                    regp_use_memory8(&h->p, rp_r8, rp_w8);
+            } else if (o[k] == 1) {
+                regp_use_channel(&h->p, serial ? RP_EP_SERIAL : RP_EP_TCP, src, snk);
+            } else {
+                regp_use_allocator(&h->p, &h->alloc);
+            }
+        }
+    }
     rp_cur = h;
 }
 
